@@ -19,6 +19,18 @@ must equal ''.join(pieces), and that text, evaluated by the real 3.0 / 3.1 parse
 root (select() on the raw root with value projection AND token.select(XPathContext(node_tree))
 with node identity), must return exactly that node.  Every edge is replayed as a transition:
 the step text evaluated with the real parent node as context item must return the child.
+History (state kept on a compiled expression): ONE Selector('path()'), ONE parsed token path(.) and ONE
+bulk Selector per parser version live as long as the worker process and are evaluated on every node of every
+tree the worker replays, in an order that alternates root names / namespaces / root kinds; each result is
+compared with the specification's string.  A failure records the first and the previous tree as history and
+--replay drives a fresh compiled expression through that history.
+Root kinds: R1 document, R2 element with implied document, R3 fragment=True, R4 lone comment/PI node, R5
+EXTENDED document (several element / text / comment / PI children of the document node), bound through the
+library's own two builders: get_node_tree(<document>...</document>).get_document_node(replace=True) on xml.etree
+and lxml, and fn:parse-xml-fragment(text) (lxml context; nodes paired in document order because the library
+parses the text itself).  Zero-length text chunks (elem.text = '' / tail = '', kind "te") are text nodes of the
+tree (both libraries keep them, the builders wrap them, sibling counting includes them); they carry no value,
+so they are recognised by parent + preceding sibling and come back from select() as ''.
 Second oracle for the SPEC: libxml2 evaluates an XPath 1.0 transliteration of the structured
 steps on the lxml document (disagreement = MachineryError).
 
@@ -838,6 +850,12 @@ def run(chk: core.Check) -> None:
         'namespace nodes are returned by select() as URI strings: identity checked through token.select(XPathContext) only',
         'xml.etree: declared prefixes are passed as namespaces=; document-level comments/PIs are lxml-only',
         'parentless single comment/PI nodes (R4) are not accepted as roots by the API: only node.path is compared',
+        'extended documents (R5) are built by get_document_node(replace=True) (xml.etree, lxml) and by '
+        'fn:parse-xml-fragment in an lxml context (under xml.etree that function drops comments/PIs and adds the '
+        'parser\'s static namespaces as namespace nodes: tree building, not judged here)',
+        'zero-length text chunks are nodes of the tree as the tree builders define it (XDM itself has no empty text nodes)',
+        'shared compiled expressions: history = the sequence of trees of one worker process (order fixed by the sorted, '
+        'root-name-interleaved job list); a failure is replayed from the first and the previous tree',
     ]
     negative_model(chk)
     cfgs = CONFIGS[chk.tier]
